@@ -10,7 +10,46 @@ def obligations(tier):
     else:
         ab_grid = [{"RL": r, "PL": p} for r in range(0, 7) for p in range(0, 13)]
     ab_grid += [{"RL": 1, "PL": 2, "WT": 1}, {"RL": 3, "PL": 1, "WT": 1}]
+    inj = dict(
+        progs=[Prog("qmail-send.c", nomain=True, cut=["getinfo"])],
+        repo=STRALLOC + FMT + ["stralloc_copy.c", "stralloc_cat.c", "str_rchr.c", "open_read.c", "quote.c", "substdio.c"],
+        lib=["ideal_substdio.c", "harness/C14/arena1d.c"],
+        defines={"ARENA_CAP": 64, "ARENA_SLOTS": 8},
+        sysrename=["stat", "open", "close", "unlink", "time", "strlen", "strcmp"],
+        unwind_default=lambda p: 2 * p["SL"] + 12,
+        unwind=lambda p: {"injectbounce~nomem()": 1, "fnmake_init~nomem()": 1, "vf_strlen": 261, "vf_strcmp": 17,
+                          "substdio_get": 4, "fmt_ulong": 5, "quote_need~for (i = 0;i < n;++i)": p["SL"] + 15},
+        timeout=900,
+        functions=["qmail-send.c:injectbounce", "qmail-send.c:fnmake2_bounce", "qmail-send.c:fnmake_mess", "quote.c:quote2", "quote.c:quote",
+                   "quote.c:quote_need", "quote.c:doit", "fmtqfn.c:fmtqfn", "open_read.c:open_read", "substdio.c:substdio_fdbuf"],
+        cuts=["getinfo -> returns the symbolic envelope sender (or fails)",
+              "qmail_open/qp/put/from/to/fail/close (qmail.c) -> observing stubs; close returns \"\" iff no qmail_fail and qmail-queue "
+              "succeeded (symbolic) - the contract of qmail.c:qmail_close",
+              "newfield_datemake -> fixed Date line"],
+        stubs=["stat/open/close/unlink/time: syscall stubs; stat: ok/ENOENT/EIO, open of either file may fail, unlink may fail (symbolic)",
+               "substdio_get: ideal stream over 2-byte bounce/N and mess/N with an optional read error; strlen/strcmp: bounded byte loops",
+               "log1/log3/qslog2: no-ops; stralloc_ready/readyplus: arena"],
+        assumes=["sender exactly SL non-NUL bytes; doublebounceto@doublebouncehost 3 symbolic bytes; bounce/N and mess/N 2 symbolic bytes each; id 7"],
+        outside=["senders longer than the grid", "header text of the notice (From:/To:/Subject: lines, explanatory text)"])
+    sls = [0, 1, 4, 5, 8] if tier == "quick" else [0, 1, 2, 3, 4, 5, 6, 7, 8, 9, 10]
     return [
+        Obl("injectbounce", "inject.c", grid=[{"SL": n} for n in sls],
+            claim="per sender form: ordinary -> F'' T<sender>; pre@host-@[] -> F'' T<pre@host>; '' -> F'#@[]' T<doublebounceto>; '#@[]' -> nothing "
+                  "queued, bounce/N removed; bounce/N removed only after qmail_close()==''; qq start/close failure, unreadable file -> return 0, "
+                  "bounce/N stays; bytes of bounce/N then mess/N handed over unchanged",
+            expect_witnesses=lambda p: ["no_info", "no_bounce_file", "qq_not_started"]
+            + (["double_bounce_sent"] if p["SL"] == 0 else ["single_bounce_sent"])
+            + (["double_bounce_discarded", "unspecified_sender_form"] if p["SL"] == 4 else [])
+            + (["verp_bounce_sent"] if p["SL"] >= 5 else [])
+            + (["verp_of_double_bounce_discarded"] if p["SL"] == 8 else [])
+            + ["qq_failed", "read_failed", "unlink_failed", "queued_and_removed"], **inj),
+        Obl("bounce_chain", "inject.c", grid=[{"STEP": 1, "SL": 6}, {"STEP": 2, "SL": 0}, {"STEP": 3, "SL": 4}],
+            claim="loop freedom by induction on the sender form: (1) whatever the sender, a queued notice has envelope sender '' or '#@[]'; "
+                  "(2) a message with sender '' yields only a notice with sender '#@[]' (to doublebounceto); (3) a message with sender '#@[]' "
+                  "yields nothing - so a chain of notices has at most two members",
+            expect_witnesses=lambda p: {1: ["single_bounce_sent", "verp_bounce_sent", "queued_and_removed"],
+                                        2: ["double_bounce_sent", "queued_and_removed"],
+                                        3: ["double_bounce_discarded"]}[p["STEP"]], **inj),
         Obl("addbounce", "addbounce.c",
             progs=[Prog("qmail-send.c", nomain=True)],
             repo=STRALLOC + FMT + ["str_rchr.c", "open_append.c"],
@@ -23,7 +62,7 @@ def obligations(tier):
                               "addbounce~while (pos < bouncetext.len)": 5, "constmap": 3, "ref_strip": max(3, p["RL"] + 1),
                               "vf_open": 10, "fmt_ulong": 3,
                               "vf_strlen": p["RL"] + p["PL"] + 5, "vf_strncmp": p["RL"] + p["PL"] + 5},
-            backend="cadical", timeout=900,
+            timeout=900,
             functions=["qmail-send.c:addbounce", "qmail-send.c:stripvdomprepend", "qmail-send.c:fnmake2_bounce", "qmail-send.c:fnmake_init",
                        "fmtqfn.c:fmtqfn", "open_append.c:open_append", "str_rchr.c", "stralloc_cats.c", "stralloc_opys.c"],
             cuts=["constmap -> one-entry case-insensitive table (key 0..2 bytes without '@', prepend 0..2 bytes, or no entry); "
